@@ -194,14 +194,31 @@ theorem intersect_union_sound_string_partial (H : MkAtomOK E) {a b r : M}
    fun h => (union_sound_partial (leafSpec_str H) (fun l hl => strLeaf_evaluable hl) ha hb h).2.2⟩
 
 /-- **The constructor fact on plain values** (through C06's text-level lemmas): for the canonical string
-variables and an `==`/`!=` atom whose value consists of plain characters (no white space, quotes, `|`, `,`)
-and does not start like an operator, `SingleMarker(name, str(atom))` stores that atom again — each instance
-of `MkAtomOK` with such a value holds. -/
+variables and an `==`/`!=` atom whose value consists of plain characters (non-empty; no white space, quotes,
+`|`, `,`) and does not start with `=`, `SingleMarker(name, constraint)` stores that atom again — each instance
+of `MkAtomOK` with such a value holds.  Since the repository fix (the constructor re-inserts the `==` that
+`str(Constraint)` omits) this includes values that start like an operator of the constraint pattern, such as
+`inotify`, `interix` or `not-x`; before the fix the statement was false for them. -/
 theorem mkAtomOK_plain_values (n : String) (a : Generic.Atom) (s : Single) (hn : n ∈ plainStringVars)
     (hv : PlainValue a.value) (hx : a.x = false) (he : a.isEqNe = true)
     (h : mkSingleOfC n (.gen (.s (.atom a))) = .ok s) :
     s.name = n ∧ s.swapped = false ∧ s.c = .gen (.s (.atom a)) ∧ s.op = a.op.str ∧ s.value = a.value :=
   mkAtomOK_plain n a s hn hv hx he h
+
+/-- values that start like the operators `in` / `not in` are plain values: `extra == "inotify"` and
+`sys_platform == "interix"` are rebuilt as themselves (the defect the repository fix removed) -/
+example : PlainValue "inotify" ∧ PlainValue "interix" ∧
+    mkSingleOfC "extra" (.gen (.s (.atom ⟨"inotify", .eq, true⟩))) =
+      .ok ⟨"extra", "==", "inotify", false, .gen (.s (.atom ⟨"inotify", .eq, true⟩))⟩ := by
+  have tk : ∀ v : String, v.toList ≠ [] → (v.toList.all fun c =>
+      !isSpace c && c != '|' && c != ',' && c != '"' && c != '\'') = true → PlainTok v := by
+    intro v h1 h2
+    refine ⟨h1, fun c hc => ?_⟩
+    have := List.all_eq_true.1 h2 c hc
+    simpa [tokChar, Bool.and_eq_true, and_assoc] using this
+  have h1 : PlainValue "inotify" := ⟨tk _ (by decide) (by decide), by decide⟩
+  have h2 : PlainValue "interix" := ⟨tk _ (by decide) (by decide), by decide⟩
+  exact ⟨h1, h2, mkExtraOK_plain ⟨"inotify", .eq, true⟩ h1 rfl rfl⟩
 
 /-- the fragment is inhabited by what the parser builds, and the constructor fact holds on such atoms -/
 example : StrLeaf Ex.envAB (.single Ex.sA) ∧ StrLeaf Ex.envAB (.single Ex.sNA) ∧ StrLeaf Ex.envAB (.single Ex.sB) ∧
@@ -250,7 +267,7 @@ example : PlainLeaf Ex.envAB (.single Ex.sNA) ∧
   have hv : PlainValue "a" := by
     refine ⟨⟨by decide, ?_⟩, ?_⟩
     · intro c hc; simp at hc; subst hc; unfold tokChar; decide
-    · intro c hc; simp at hc; subst hc; unfold StartOk; decide
+    · decide
   refine ⟨Or.inl ⟨⟨rfl, rfl, ⟨"a", rfl⟩, rfl, ⟨"a", .ne, false⟩, rfl, rfl, rfl, rfl, rfl⟩, by decide, ?_⟩,
     Or.inr ⟨⟨rfl, rfl, ⟨"a", .eq, true⟩, rfl, rfl, rfl, rfl, rfl⟩, ?_⟩⟩
   · intro x hx; simp [leafAtoms, Leaf.c, Ex.sNA, Ex.cNA, Generic.GC.atoms, Generic.GS.atoms] at hx; subst hx; exact hv
